@@ -10,8 +10,12 @@
 
    Part 1  generic fold, predicates about step functions.
    Part 2  a small DBC-like statement language (BO_ SG_ BA_ CM_ VAL_ SG_MUL_VAL_ unknown) with the structure of
-           dbc.py load: `dbc_step` follows the repaired reader (fixes/C20_dbc_reader.patch), `dbc_step_orig` the reader
-           as found (SG_MUL_VAL_ / VAL_ mutate before failing, BA_ stores any text, post-processing may raise).
+           dbc.py load.  `dbc_step_gen atomic check`: atomic = SG_MUL_VAL_ / VAL_ parse the whole line before they change
+           anything (repaired, fixes/C20_dbc_a, _b); check = BA_ values must be a number or a quoted string (the repair that
+           was DECLINED: canmatrix's own writer emits bare words for matrix-level ENUM attributes).
+           `dbc_step = dbc_step_gen true false` is the reader as it is now, `dbc_step_orig = dbc_step_gen false false` the
+           reader as found, `dbc_step_strict = dbc_step_gen true true` the reader with the declined repair.
+           The post-processing is tolerant now (fixes/C20_dbc_c1, _c2); `dbc_post_orig` raised.
    Part 3  a small SYM-like language ([frame] ID Type DLC CycleTime Var Mux unknown) with the structure of sym.py load:
            `sym_step` follows fixes/C20_sym_reader.patch, `sym_step_orig` the reader as found (a failing Mux= line
            poisons the loop variable `multiplexor` and writes mux_names before the <frame>_MUX signal exists; the
@@ -86,14 +90,24 @@ Definition name_of (f : field) : option Z := match f with Num z => Some z | Str 
 Definition is_bad (f : field) : bool := match f with Bad => true | _ => false end.
 Definition not_num (f : field) : bool := match f with Num _ => false | _ => true end.
 
+(* what stands in the value position of a BA_ line *)
+Inductive aval :=
+| VNum (z : Z)      (* a number (interned text) *)
+| VStr (z : Z)      (* a quoted string *)
+| VWord (z : Z)     (* some other token: a bare word, a string cut before its closing quote - not an attribute_value of the
+                       DBC grammar, but the pattern of the reader matches it *)
+| VMissing.         (* nothing, or no terminating ';': the pattern does not match *)
+Definition aval_grammatical (v : aval) : bool := match v with VNum _ | VStr _ => true | _ => false end.
+Definition aval_missing (v : aval) : bool := match v with VMissing => true | _ => false end.
+
 Record signal := mkSig {
   s_name : Z; s_start : Z; s_size : Z; s_le : bool; s_signed : bool; s_factor : Z; s_offset : Z;
   s_mux : Z;                         (* -1 none, -2 multiplexor (M), k >= 0: m<k> *)
-  s_attrs : list (Z * field); s_comment : option Z; s_values : list (Z * Z);
+  s_attrs : list (Z * aval); s_comment : option Z; s_values : list (Z * Z);
   s_muxer : option Z; s_ranges : list (Z * Z) }.
 Record frame := mkFrame {
   f_id : arbid; f_name : Z; f_size : Z; f_sender : Z;
-  f_attrs : list (Z * field); f_comment : option Z; f_complex : bool; f_signals : list signal }.
+  f_attrs : list (Z * aval); f_comment : option Z; f_complex : bool; f_signals : list signal }.
 (* frames: db.frames (append only while reading); cur: the loop variable `frame` = index of a frame object, None = Python None *)
 Record dstate := mkD { frames : list frame; cur : option nat }.
 Definition dbc_init : dstate := mkD [] None.
@@ -103,8 +117,8 @@ Inductive line :=
 | LSg (name : field) (mux : option field) (start size order sign factor offset : field)
       (* SG_ name [M|m<k>] : start|size@order sign (factor,offset) ...; mux: None absent, Some (Str _) "M", Some (Num k) "m<k>",
          Some Bad malformed; order: Num 1 Intel; sign: Num 1 '-', Num 0 '+' *)
-| LBaBo (attr : Z) (id value : field)                                 (* BA_ "attr" BO_ id value; *)
-| LBaSg (attr : Z) (id sname value : field)                           (* BA_ "attr" SG_ id sname value; *)
+| LBaBo (attr : Z) (id : field) (value : aval)                        (* BA_ "attr" BO_ id value; *)
+| LBaSg (attr : Z) (id sname : field) (value : aval)                  (* BA_ "attr" SG_ id sname value; *)
 | LCmBo (id text : field)                                             (* CM_ BO_ id "text"; *)
 | LCmSg (id sname text : field)                                       (* CM_ SG_ id sname "text"; *)
 | LVal (id sname : field) (pairs : list (field * field)) (terminated : bool)        (* VAL_ id sname k "label" ... ; *)
@@ -151,7 +165,7 @@ Definition on_signal (n : Z) (g : signal -> signal) (f : frame) : frame :=
 Definition frame_has_signal (s : dstate) (i : nat) (n : Z) : bool :=
   match nth_error (frames s) i with Some f => has_signal (f_signals f) n | None => false end.
 
-Definition f_set_attr (a : Z) (v : field) (f : frame) : frame :=
+Definition f_set_attr (a : Z) (v : aval) (f : frame) : frame :=
   mkFrame (f_id f) (f_name f) (f_size f) (f_sender f) (set_assoc (f_attrs f) a v) (f_comment f) (f_complex f) (f_signals f).
 Definition f_set_comment (t : Z) (f : frame) : frame :=
   mkFrame (f_id f) (f_name f) (f_size f) (f_sender f) (f_attrs f) (Some t) (f_complex f) (f_signals f).
@@ -159,7 +173,7 @@ Definition f_set_complex (f : frame) : frame :=
   mkFrame (f_id f) (f_name f) (f_size f) (f_sender f) (f_attrs f) (f_comment f) true (f_signals f).
 Definition f_add_signal (x : signal) (f : frame) : frame :=
   mkFrame (f_id f) (f_name f) (f_size f) (f_sender f) (f_attrs f) (f_comment f) (f_complex f) (f_signals f ++ [x]).
-Definition s_set_attr (a : Z) (v : field) (x : signal) : signal :=
+Definition s_set_attr (a : Z) (v : aval) (x : signal) : signal :=
   mkSig (s_name x) (s_start x) (s_size x) (s_le x) (s_signed x) (s_factor x) (s_offset x) (s_mux x)
         (set_assoc (s_attrs x) a v) (s_comment x) (s_values x) (s_muxer x) (s_ranges x).
 Definition s_set_comment (t : Z) (x : signal) : signal :=
@@ -175,8 +189,8 @@ Definition s_add_ranges (rs : list (Z * Z)) (x : signal) : signal :=
   mkSig (s_name x) (s_start x) (s_size x) (s_le x) (s_signed x) (s_factor x) (s_offset x) (s_mux x)
         (s_attrs x) (s_comment x) (s_values x) (s_muxer x) (s_ranges x ++ rs).
 
-(* check_attribute_value (repaired reader): a number or a quoted string *)
-Definition value_ok (v : field) : bool := negb (is_bad v).
+(* check_attribute_value (the declined repair): a number or a quoted string *)
+Definition value_ok (v : aval) : bool := aval_grammatical v.
 
 Definition mux_code (m : option field) : option Z :=
   match m with
@@ -226,10 +240,11 @@ Definition step_sg (s : dstate) (name : field) (mux : option field) (start size 
   | _, _, _, _ => Fail s
   end.
 
-Definition step_babo (check : bool) (s : dstate) (a : Z) (id v : field) : outcome dstate :=
+Definition step_babo (check : bool) (s : dstate) (a : Z) (id : field) (v : aval) : outcome dstate :=
   match num_of id with
   | None => Fail s                                       (* (\d+) does not match -> temp is None -> AttributeError *)
   | Some i =>
+      if aval_missing v then Fail s else                 (* no value / no ';' : temp is None -> AttributeError *)
       match from_compound_integer i with
       | None => Fail s
       | Some key =>
@@ -241,9 +256,10 @@ Definition step_babo (check : bool) (s : dstate) (a : Z) (id v : field) : outcom
       end
   end.
 
-Definition step_basg (check : bool) (s : dstate) (a : Z) (id sn v : field) : outcome dstate :=
+Definition step_basg (check : bool) (s : dstate) (a : Z) (id sn : field) (v : aval) : outcome dstate :=
   match num_of id, name_of sn with
   | Some i, Some n =>
+      if aval_missing v then Ok s else                   (* `if temp is not None` *)
       match from_compound_integer i with
       | None => Fail s
       | Some key =>
@@ -382,16 +398,16 @@ Definition step_mulval (fixed : bool) (s : dstate) (id sn muxer : field) (rs : l
   | _, _, _ => Ok s
   end.
 
-Definition dbc_step_gen (fixed : bool) (s : dstate) (l : line) : outcome dstate :=
+Definition dbc_step_gen (atomic check : bool) (s : dstate) (l : line) : outcome dstate :=
   match l with
   | LBo id name size sender => step_bo s id name size sender
   | LSg name mux start size order sign factor offset => step_sg s name mux start size order sign factor offset
-  | LBaBo a id v => step_babo fixed s a id v
-  | LBaSg a id sn v => step_basg fixed s a id sn v
+  | LBaBo a id v => step_babo check s a id v
+  | LBaSg a id sn v => step_basg check s a id sn v
   | LCmBo id t => step_cmbo s id t
   | LCmSg id sn t => step_cmsg s id sn t
-  | LVal id sn ps term => step_val fixed s id sn ps term
-  | LMulVal id sn m rs term => step_mulval fixed s id sn m rs term
+  | LVal id sn ps term => step_val atomic s id sn ps term
+  | LMulVal id sn m rs term => step_mulval atomic s id sn m rs term
   | LRef id =>
       match num_of id with
       | None => Fail s                                   (* the pattern does not match / int() raises *)
@@ -402,8 +418,9 @@ Definition dbc_step_gen (fixed : bool) (s : dstate) (l : line) : outcome dstate 
       end
   | LUnknown _ => Ok s
   end.
-Definition dbc_step := dbc_step_gen true.         (* the reader with fixes/C20_dbc_reader.patch *)
-Definition dbc_step_orig := dbc_step_gen false.   (* the reader as found *)
+Definition dbc_step := dbc_step_gen true false.          (* the reader as it is now *)
+Definition dbc_step_orig := dbc_step_gen false false.    (* the reader as found *)
+Definition dbc_step_strict := dbc_step_gen true true.    (* with the declined BA_ value check *)
 
 (* post-processing: frame.cycle_time = int(float(frame.attributes.get("GenMsgCycleTime", 0)));  attribute code 1 = GenMsgCycleTime.
    Result per frame: (identifier, cycle-time text code or -1 for the default 0).  None = the conversion raises. *)
@@ -413,7 +430,7 @@ Fixpoint assoc {V} (l : list (Z * V)) (k : Z) : option V :=
 Definition cycle_of (fixed : bool) (f : frame) : option Z :=
   match assoc (f_attrs f) gen_msg_cycle_time with
   | None => Some (-1)
-  | Some (Num z) => Some z
+  | Some (VNum z) => Some z
   | Some _ => if fixed then Some (-1) else None      (* convert_or_default / ValueError *)
   end.
 Fixpoint dbc_post_gen (fixed : bool) (fs : list frame) : option (list (arbid * Z)) :=
@@ -440,7 +457,7 @@ Definition dbc_objs (s : dstate) (o : dobj) : Prop :=
 (* syntactically malformed lines of the language (the three fault kinds): a mandatory field is missing or of the wrong type,
    or the keyword is unknown *)
 Definition pair_bad (p : field * field) : bool := is_bad (fst p) || is_bad (snd p).
-Definition dbc_malformed (l : line) : bool :=
+Definition dbc_malformed_gen (check : bool) (l : line) : bool :=
   match l with
   | LBo id name size sender =>
       not_num id || is_bad name || not_num size || is_bad sender
@@ -448,8 +465,9 @@ Definition dbc_malformed (l : line) : bool :=
   | LSg name mux start size order sign factor offset =>
       is_bad name || match mux with Some Bad => true | _ => false end
       || not_num start || not_num size || not_num order || not_num sign || not_num factor || not_num offset
-  | LBaBo _ id v => not_num id || is_bad v
-  | LBaSg _ id sn v => not_num id || is_bad sn || is_bad v
+  (* a BA_ value that is present but not an attribute_value of the grammar counts only when the reader checks it *)
+  | LBaBo _ id v => not_num id || aval_missing v || (check && negb (aval_grammatical v))
+  | LBaSg _ id sn v => not_num id || is_bad sn || aval_missing v || (check && negb (aval_grammatical v))
   | LCmBo id t => not_num id || is_bad t
   | LCmSg id sn t => not_num id || is_bad sn || is_bad t
   | LVal id sn ps term => negb term || not_num id || is_bad sn || negb (completed ps)
@@ -458,6 +476,8 @@ Definition dbc_malformed (l : line) : bool :=
   | LRef id => not_num id
   | LUnknown _ => true
   end.
+(* the malformed lines the reader as it is now skips: every kind but "BA_ with a non-grammatical value that is present" *)
+Definition dbc_malformed := dbc_malformed_gen false.
 Definition is_sg (l : line) : bool := match l with LSg _ _ _ _ _ _ _ _ => true | _ => false end.
 Definition is_bo (l : line) : bool := match l with LBo _ _ _ _ => true | _ => false end.
 (* well-formed shape of a file: every SG_ line directly follows a BO_ line or another SG_ line *)
@@ -468,11 +488,11 @@ Fixpoint sg_guarded_from (prev_ok : bool) (ls : list line) : bool :=
   end.
 Definition sg_guarded (ls : list line) : bool := sg_guarded_from false ls.
 (* faulted = clean with malformed lines inserted, never directly before an SG_ line *)
-Inductive DbcInserted : list line -> list line -> Prop :=
-| di_nil : DbcInserted [] []
-| di_keep l a b : DbcInserted a b -> DbcInserted (l :: a) (l :: b)
-| di_bad x a b : dbc_malformed x = true -> match a with l :: _ => is_sg l = false | [] => True end ->
-                 DbcInserted a b -> DbcInserted a (x :: b).
+Inductive DbcInserted (check : bool) : list line -> list line -> Prop :=
+| di_nil : DbcInserted check [] []
+| di_keep l a b : DbcInserted check a b -> DbcInserted check (l :: a) (l :: b)
+| di_bad x a b : dbc_malformed_gen check x = true -> match a with l :: _ => is_sg l = false | [] => True end ->
+                 DbcInserted check a b -> DbcInserted check a (x :: b).
 
 (* ------------------------------------------------------------------------------------------------ *)
 (* Part 3: SYM-like language                                                                         *)
